@@ -528,12 +528,23 @@ func (r *Reader) TextWithOptions(opts ExtractOptions) (string, error) {
 				if cell.IsMerged && !cell.IsMergeRoot {
 					continue
 				}
-				result.WriteString(cell.Value)
+				result.WriteString(delimitedField(cell.Value, delimiter))
 			}
 		}
 	}
 
 	return result.String(), nil
+}
+
+// delimitedField returns a cell value fit for one field of one output line:
+// a line break inside the cell (Alt+Enter) or the delimiter itself would start
+// a new line or field and move every later cell, so both become a space.
+func delimitedField(value, delimiter string) string {
+	if !strings.ContainsAny(value, "\r\n") && !strings.Contains(value, delimiter) {
+		return value
+	}
+	value = strings.NewReplacer("\r\n", " ", "\n", " ", "\r", " ").Replace(value)
+	return strings.ReplaceAll(value, delimiter, " ")
 }
 
 // Markdown returns the workbook content as Markdown.
